@@ -68,7 +68,12 @@ theorem C20_ends_closed (v : Variant) (s : S) (h : Reachable v s) (e : Ev) (hs :
 /-- "… and Run returns": once a stop branch was taken nothing any other goroutine does can divert the Run
 goroutine from the shutdown path, each of its statements is enabled whatever the outcome of the fallible calls
 (`C20_run_never_stuck`), and as soon as its (at most four) remaining statements have been executed — in any
-interleaving with anything else — Run has returned. -/
+interleaving with anything else — Run has returned.
+WHAT THIS RESTS ON: that each of those statements terminates is an ASSUMPTION of the model, not a result —
+`configProvider.Shutdown` and `service.Shutdown` are single always-enabled steps of `stepRun` ("may fail", never "may
+hang"). What is proved is that the collector's own control flow adds no way of not returning: nothing diverts, re-enters or
+blocks the path. The one place where the collector itself made `service.Start/Shutdown` hang (fatal-error report under
+the status reporter's lock) is modelled and refuted for the unrepaired host in `C20_run_returns_unrepaired_host_fails`. -/
 theorem C20_stop_returns (v : Variant) (s s' : S) (ls : List Label) (hr : Reachable v s) (hp : s.pc.inShut = true)
     (h : runFrom v s ls = some s') (hn : s.pc.remaining ≤ countSteps ls) : s'.pc = .done ∧ s'.ret.isSome = true := by
   obtain ⟨hp', hrem⟩ := shut_runFrom ls (Or.inl hp) h
@@ -84,7 +89,10 @@ theorem C20_stop_returns (v : Variant) (s s' : S) (ls : List Label) (hr : Reacha
     rw [runFrom_append, h0]; exact h
   exact ⟨hdone, (inv_reachable hr').retDone.2 hdone⟩
 
-/-- the Run goroutine is never blocked outside the select: its next statement is always enabled -/
+/-- the Run goroutine is never blocked outside the select: its next statement is always enabled. DEFINITIONAL: this is
+how `stepRun` is written (every call of the Run goroutine returns — the model's termination assumption, see `stepRun`); it
+is stated so that the assumption has a name, and it is what the gated harness observes on the real code after every
+release of a gate (watchdog of 5 s per step, `C20/runloop/run-wedged-*`, `C20/harness/run-goroutine-did-not-reach-expected-point`). -/
 theorem C20_run_never_stuck (v : Variant) (s : S) (h1 : s.pc ≠ .idle) (h2 : s.pc ≠ .select) (h3 : s.pc ≠ .done) :
     (fire v s (.step true)).isSome = true := by
   cases hpc : s.pc <;> simp_all [fire, stepRun]
@@ -93,7 +101,7 @@ theorem C20_run_never_stuck (v : Variant) (s : S) (h1 : s.pc ≠ .idle) (h2 : s.
 theorem C20_select_ready (v : Variant) (s : S) (hpc : s.pc = .select) (h : s.anyReady = true) :
     ∃ e, (fire v s (.pick e)).isSome = true := by
   simp only [S.anyReady, Bool.or_eq_true, decide_eq_true_eq] at h
-  rcases h with (((((h | h) | h) | h) | h) | h) | h
+  rcases h with ((((((h | h) | h) | h) | h) | h) | h) | h
   · exact ⟨.watchOk, by simp [fire, hpc, pickEv, h]⟩
   · exact ⟨.watchErr, by simp [fire, hpc, pickEv, h]⟩
   · exact ⟨.hup, by simp [fire, hpc, pickEv, h]⟩
@@ -101,6 +109,7 @@ theorem C20_select_ready (v : Variant) (s : S) (hpc : s.pc = .select) (h : s.any
   · exact ⟨.async, by simp [fire, hpc, pickEv, h]⟩
   · exact ⟨.shutdown, by simp [fire, hpc, pickEv, h]⟩
   · exact ⟨.ctx, by simp [fire, hpc, pickEv, h]⟩
+  · exact ⟨.async, by simp [fire, hpc, pickEv, h]⟩
 
 /-- non-vacuity of `C20_no_overlap` / `C20_stop_returns`: a reachable state at the creation point of generation 2 with
 generation 1 created and shut down; a reachable state on the shutdown path -/
@@ -420,5 +429,89 @@ example : (run .fixed [.begin, .step true, .step true, .step true, .step true, .
       (fun e => match e with | .started _ _ | .shut _ _ => true | _ => false)) =
     some [.started 1 0, .started 1 1, .started 1 2, .shut 1 0, .shut 1 1, .shut 1 2, .started 2 0, .shut 2 0, .shut 2 1, .shut 2 2] := by
   decide
+
+/-! ## fatal errors reported by components (audit follow-up, issue 1)
+
+`Label.fatal` = a component reports `StatusFatalError` through its host. Repaired host (`fix: do not block the status
+reporter …`): the report starts a goroutine that waits to hand the error over on the unbuffered `asyncErrorChannel`
+(`nFatal`) and gives up when the service is shut down; the reporting component and the status reporter are not held up. -/
+
+/-- a pending fatal-error hand-over makes the `async` branch of the select ready — from any state of the select -/
+theorem C20_fatal_report_is_received (v : Variant) (s : S) (hpc : s.pc = .select) (h : s.nFatal > 0) :
+    ∃ s', fire v s (.pick .async) = some s' ∧ s'.stop = some .async ∧ s'.pc = .shut1 := by
+  simp [fire, hpc, pickEv, leave, S.emit, h]
+
+/-- … and what is still pending when the service is shut down (reload, failed start, final shutdown) is abandoned: nothing
+of a retired service can stop the collector later, no goroutine is left behind -/
+theorem C20_fatal_reports_abandoned_at_service_shutdown (s s' : S) (ok : Bool) (g : Nat) (hsvc : s.svc = some g)
+    (hpc : s.pc = .reload2 ∨ s.pc = .shut3 ∨ (∃ rl, s.pc = .setupSd rl)) (h : stepRun s ok = some s') : s'.nFatal = 0 := by
+  rcases hpc with hpc | hpc | ⟨rl, hpc⟩
+  · cases ok <;> simp [stepRun, hpc, svcShutdown, hsvc, S.emit] at h <;> subst h <;> rfl
+  · simp [stepRun, hpc, svcShutdown, hsvc, S.emit] at h; subst h; rfl
+  · cases rl <;> simp [stepRun, hpc, svcShutdown, hsvc, S.emit, failSetup] at h <;> subst h <;> rfl
+
+/-- The UNREPAIRED host (`host.AsyncErrorChannel <- event.Err()` inside `NotifyComponentStatusChange`, i.e. with the status
+reporter's mutex held): while a report is pending, every statement of the Run goroutine that reports component statuses —
+`service.Start` (`setup3`) and `service.Shutdown` (`setupSd`, `reload2`, `shut3`) — blocks on that mutex. -/
+def locksReporter : Pc → Bool
+  | .setup3 _ | .setupSd _ | .reload2 | .shut3 => true
+  | _ => false
+
+def stepRunUnrepairedHost (s : S) (ok : Bool) : Option S :=
+  if s.nFatal > 0 && locksReporter s.pc then none else stepRun s ok
+
+/-- history of corpus case 1 of the harness: Running; SIGTERM is taken by the select; a component reports FatalError; the
+shutdown proceeds to `service.Shutdown` -/
+def wedgeWitness : List Label :=
+  [.begin, .step true, .step true, .step true, .step true, .post .term, .pick .term, .fatal, .step true, .step true]
+
+/-- **"Run returns" fails for the unrepaired host** (candidate finding, reproduced on the real collector, repaired): after
+`wedgeWitness` the run has been stopped by a termination signal, sits before `service.Shutdown` with a fatal report pending,
+the next statement of the Run goroutine is disabled whatever its outcome, and nothing any other goroutine does ever changes
+that — Run never returns, the state stays Closing. -/
+theorem C20_run_returns_unrepaired_host_fails :
+    ∃ s, run .fixed wedgeWitness = some s ∧ s.stop = some .term ∧ s.st = .closing ∧ s.ret = none ∧
+      (∀ ok, stepRunUnrepairedHost s ok = none) ∧
+      (∀ ls s', (∀ l ∈ ls, l.isStep = false) → runFrom .fixed s ls = some s' →
+        s'.pc = .shut3 ∧ s'.ret = none ∧ ∀ ok, stepRunUnrepairedHost s' ok = none) := by
+  have hw : (run .fixed wedgeWitness).map (fun s => (s.stop, s.st, s.ret, s.pc, s.nFatal)) =
+      some (some .term, .closing, none, .shut3, 1) := by decide
+  cases hs : run .fixed wedgeWitness with
+  | none => simp [hs] at hw
+  | some s =>
+    simp only [hs, Option.map_some, Option.some.injEq, Prod.mk.injEq] at hw
+    obtain ⟨h1, h2, h3, h4, h5⟩ := hw
+    refine ⟨s, rfl, h1, h2, h3, ?_, ?_⟩
+    · intro ok; simp [stepRunUnrepairedHost, h4, h5, locksReporter]
+    · intro ls
+      have key : ∀ (ls : List Label) (s0 s' : S), s0.pc = .shut3 → s0.nFatal > 0 → (∀ l ∈ ls, l.isStep = false) →
+          runFrom .fixed s0 ls = some s' → s'.pc = .shut3 ∧ s'.nFatal > 0 := by
+        intro ls
+        induction ls with
+        | nil => intro s0 s' a b _ h; simp only [runFrom, Option.some.injEq] at h; subst h; exact ⟨a, b⟩
+        | cons l ls ih =>
+          intro s0 s' a b hl h
+          simp only [runFrom] at h
+          cases hf : fire .fixed s0 l with
+          | none => simp [hf] at h
+          | some s1 =>
+            simp only [hf, Option.bind_some] at h
+            obtain ⟨a1, b1⟩ := wedged_stable a b (hl l (by simp)) hf
+            exact ih s1 s' a1 b1 (fun l' hl' => hl l' (by simp [hl'])) h
+      intro s' hl h
+      obtain ⟨a, b⟩ := key ls s s' h4 (by omega) hl h
+      have hr : Reachable .fixed s' := by
+        refine ⟨wedgeWitness ++ ls, ?_⟩
+        simp only [run] at hs ⊢
+        rw [runFrom_append, hs]; exact h
+      have hret : s'.ret = none := by
+        cases hx : s'.ret with
+        | none => rfl
+        | some r => have := (inv_reachable hr).retDone.1 (by simp [S.core, hx]); simp [S.core, a] at this
+      exact ⟨a, hret, fun ok => by simp [stepRunUnrepairedHost, a, b, locksReporter]⟩
+
+/-- on the repaired host the same history goes on to Closed: the pending report is abandoned by `service.Shutdown` -/
+example : (run .fixed (wedgeWitness ++ [.step true, .step true])).map (fun s => (s.st, s.ret, s.nFatal, s.sdLog, s.provSd)) =
+    some (.closed, some true, 0, [1], 1) := by decide
 
 end OtelVerif.C20
